@@ -115,6 +115,10 @@ def misread(ctx, frame_try, thorough):
                           frame=codec.hx(fr), implementation_output=txt[:300], spec_verdict=why)
 
 
+def subs0(known):
+    return next(x for x in range(0xFF00, 0xFFFF) if x not in known)
+
+
 def unknown_ids(ctx, frame_try, thorough):
     """the statement itself, on the implementation: a well-formed frame of an unregistered type / 0x1F sub-id / 0xC0 sub-type is
     delivered as an unsupported message carrying its payload unchanged, for every payload length from 0 (the bare echo of a
@@ -139,6 +143,12 @@ def unknown_ids(ctx, frame_try, thorough):
         for mid in (tops if thorough else tops[::9]):
             for pl in payloads:
                 cases.append(("type 0x%02x" % mid, mid, pl, pl))
+        # the length field is 16 bits wide: payloads of every size it can announce, up to the largest an AirTouch 4 / AirTouch 5 frame can carry
+        top_len = 0xFFFF if gen == 4 else 0xFFFF - 12
+        for size in (255, 256, 257, 1024, 4096, 8191, 8192, 8193, 9000, 32768, top_len):
+            big = bytes((7 * i + size) & 0xFF for i in range(size))
+            cases.append(("type 0x%02x" % tops[0], tops[0], big, big))
+            cases.append(("0x1F sub-id 0x%04x" % subs0(x1f_known), 0x1F, struct.pack("!H", subs0(x1f_known)) + big[:size - 2], big[:size - 2]))
         subs = [x for x in list(range(0xFF00, 0xFF80)) + [0x0000, 0x1234, 0xFFFF] if x not in x1f_known]
         for sub in (subs if thorough else subs[::5]):
             for pl in payloads:
@@ -169,7 +179,7 @@ def unknown_ids(ctx, frame_try, thorough):
                         why = "the unsupported message carries %s, the frame's payload is %s" % (bytes(got).hex(), inner.hex())
             if why:
                 ctx.violation("C17:%d:unknown-id" % gen, "AirTouch %d, well-formed frame of unregistered %s with a %d-byte payload (%s): %s" % (
-                    gen, what, len(inner if inner is not None else payload), fr.hex(), why), kind="input", gen=gen, frame=fr.hex(), implementation_output=text, spec_verdict="delivered as unsupported, payload unchanged")
+                    gen, what, len(inner if inner is not None else payload), fr.hex() if len(fr) < 200 else fr[:60].hex() + "...", why), kind="input", gen=gen, frame=fr.hex(), implementation_output=text, spec_verdict="delivered as unsupported, payload unchanged")
                 break
 
 
